@@ -52,7 +52,7 @@ func h64(parts ...string) uint64 {
 }
 
 func modDir(m *genmod.Mod) string {
-	return filepath.Join(batch.Scratch, "verif-mods-runsim", m.Digest())
+	return batch.ModDir("runsim", m.Digest())
 }
 
 type jsonLine struct {
